@@ -4,6 +4,8 @@ package main
 import (
 	"bytes"
 	"fmt"
+	"runtime"
+	"sync"
 
 	gots "github.com/Comcast/gots/v2"
 	"github.com/Comcast/gots/v2/packet"
@@ -431,6 +433,55 @@ func run(c *mon.Ctx) {
 			return ""
 		})
 		c.Class("concurrent-codecs")
+	})
+	// "no byte beyond the 6 (resp. 5) is touched", also not re-written with the value just read: a second
+	// goroutine owns the bytes next to the field and must always read back what it wrote last
+	c.Floor("neighbour_bytes.rounds", 100000)
+	c.Stream("concurrent-neighbour-bytes", c.N(2, 60), func(i int, r *gen.Rand) {
+		prev := runtime.GOMAXPROCS(4)
+		defer runtime.GOMAXPROCS(prev)
+		buf := make([]byte, 32)
+		const rounds = 100000
+		var lost int64
+		var wg sync.WaitGroup
+		stop := make(chan struct{})
+		wg.Add(2)
+		v0, w0 := r.Uint64()%ref.PCRMax, r.U33()
+		go func() { // the codec writes the two fields over and over
+			defer wg.Done()
+			v, w := v0, w0
+			for {
+				select {
+				case <-stop:
+					return
+				default:
+				}
+				gots.InsertPCR(buf[8:14], v)
+				gots.InsertPTS(buf[20:25], w)
+				v, w = (v+27000000)%ref.PCRMax, (w+3003)&(1<<33-1)
+			}
+		}()
+		go func() { // the owner of the neighbouring bytes
+			defer wg.Done()
+			defer close(stop)
+			for k := 0; k < rounds; k++ {
+				x := byte(k)
+				buf[14], buf[15], buf[7], buf[25], buf[26], buf[19] = x, x, x, x, x, x
+				for spin := 0; spin < 20; spin++ {
+					if buf[14] != x || buf[15] != x || buf[7] != x || buf[25] != x || buf[26] != x || buf[19] != x {
+						lost++
+						break
+					}
+				}
+			}
+		}()
+		wg.Wait()
+		c.Eval(rounds)
+		c.CountN("neighbour_bytes.rounds", rounds)
+		if lost > 0 {
+			c.Fail("codec:touches-neighbouring-bytes", fmt.Sprintf("while InsertPCR / InsertPTS were writing their 6 / 5 bytes, the goroutine that owns the bytes next to the fields read back a value it had overwritten already (%d of %d rounds): the codec stores into bytes beyond its field", lost, rounds), wit{Op: "InsertPCR/InsertPTS next to bytes owned by another goroutine", Note: "the interleaving is not reproducible"})
+		}
+		c.Class("concurrent-neighbour-bytes")
 	})
 	c.Stream("end-to-end", c.N(20000, 30000000), func(i int, r *gen.Rand) { endToEnd(c, r) })
 }
